@@ -9,6 +9,7 @@ a-memo  caches of compiled right-hand sides (hv.memo)
 b (added)  right-hand side at special states (a canonical pair / all of Q exactly zero); __init__ stores every Jacobian block unchanged
 
 d (round 3)  twin agreement of options: per integrator and branch the Hamiltonian and the generic kernel receive equal tolerances, limits, tables and grid
+d (round 5)  the symplectic integrator's event and plain drivers are twins: equal grid, order, coupling heuristic, Hamiltonian data (callee defaults count as values)
 """
 from __future__ import annotations
 
@@ -559,6 +560,29 @@ def _d_dispatch(chk):
                       f"the Hamiltonian and the generic kernel are driven with different values for {diff} (generic, Hamiltonian): the two paths do not solve the same problem",
                       sample=f"event={event}: {len(shared)} shared options equal ({', '.join(shared[:8])}...)")
     chk.count("functions partially evaluated", 12)
+    # the symplectic integrator has no generic twin, but its event driver and its plain driver are twins of each other: the same grid, order,
+    # coupling heuristic and Hamiltonian data reach both (a keyword the callee has a default for can be dropped at one call site unnoticed)
+    for cls_name, modname, drivers, kind in [x for x in INTEGRATORS if x[0] == "_ExtendedSymplectic"]:
+        kw = {}
+        for event in (False, True):
+            outcome, sol, cap = _run_integrate(cls_name, modname, drivers, tv, rep, fwd=1, ham=True, event=event, hit=False)
+            if len(cap["calls"]) != 1:
+                raise AnalysisError(f"{cls_name}.integrate(event={event}) makes {len(cap['calls'])} kernel calls")
+            r = ri.resolve(ri.need_module(modname), cap["calls"][0][0])
+            fn = r[2] if r and r[0] == "def" else None
+            b = dict(cap["calls"][0][1])
+            if fn is not None:
+                b.update(dict(zip([a.arg for a in fn.args.args], cap["calls"][0][2])))
+                # what the callee would use for parameters the call leaves out
+                dfl = dict(zip([a.arg for a in fn.args.args][len(fn.args.args) - len(fn.args.defaults):], fn.args.defaults))
+                for name, node in dfl.items():
+                    b.setdefault(name, ("callee default", ast.unparse(node)))
+            kw[event] = b
+        shared = sorted(k for k in set(kw[False]) & set(kw[True]) if k not in ("event_fn", "event_compiled"))
+        diff = {k: (kw[False][k], kw[True][k]) for k in shared if not _same_value(kw[False][k], kw[True][k])}
+        chk.check(not diff and len(shared) >= 4, "C17.d", f"{modname}::{cls_name}.integrate[event/plain twin options]",
+                  f"the plain and the event driver of the symplectic integrator are driven with different values for {diff} (plain, event): monitoring an event changes the trajectory",
+                  sample=f"{len(shared)} shared options equal ({', '.join(shared[:8])})")
 
 
 def _same_value(a, b):
